@@ -148,6 +148,26 @@ pub fn scripts(tier: Tier) -> Vec<Script> {
             ],
         });
     }
+    // page sizes that are not multiples of the 512-byte sector: two-entry leaves that end within the
+    // last bytes of their second page, rewritten into freed pages next to live ones
+    for (name, ps, a, b) in [("p5000-nodes-ending-near-a-page-end", 5000u64, "c*4900", "d*4900"), ("p1032-nodes-ending-near-a-page-end", 1032, "c*980", "d*980")] {
+        let mut first = vec![OpSpec::bucket("create", &[], "a")];
+        for i in 1..=6 {
+            first.push(OpSpec::put(&["a"], &format!("k{}", i), a));
+        }
+        out.push(Script {
+            name,
+            cfg: small(ps, 64),
+            actions: vec![
+                tx(first),
+                tx(vec![OpSpec::put(&["a"], "k1", b)]),
+                tx(vec![OpSpec::put(&["a"], "k1", a)]),
+                tx(vec![OpSpec::put(&["a"], "k3", b)]),
+                tx(vec![OpSpec::del(&["a"], "k5"), OpSpec::put(&["a"], "k1", b)]),
+                tx(vec![OpSpec::put(&["a"], "k6", b), OpSpec::put(&["a"], "k2", b)]),
+            ],
+        });
+    }
     if tier == Tier::Thorough {
         // a longer chain at 1024 with a reopen in the middle (pending pages become free)
         let mut chain = vec![tx({
@@ -234,6 +254,9 @@ impl FileState {
     }
 }
 
+/// set by the worker: the quick tier leaves out the quadratic deviation class of very long epochs
+pub static QUICK_TIER: std::sync::atomic::AtomicBool = std::sync::atomic::AtomicBool::new(false);
+
 impl CommitTrace {
     /// Durable state at the start of `epoch`.
     pub fn durable(&self, epoch: usize) -> FileState {
@@ -295,6 +318,10 @@ impl CommitTrace {
                         let mut p = vec![base; n];
                         p[i] = !base;
                         out.push(ImageSpec { epoch: e, present: p.clone(), torn: None, class: "subset-dev1" });
+                        // pairs: for epochs of more than 40 ops only in the thorough tier
+                        if n > 40 && QUICK_TIER.load(std::sync::atomic::Ordering::Relaxed) {
+                            continue;
+                        }
                         for j in i + 1..n {
                             let mut q = p.clone();
                             q[j] = !base;
@@ -475,7 +502,163 @@ pub fn judge(cfg: &Cfg, path: &str, st: &FileState, pre: &BucketM, post: &Bucket
 /// back-to-front, recover with the real library, run one more commit, crash again in every way of
 /// the bounded model, recover again.  The second recovery must show the state before or after that
 /// second commit.
-fn level2(sc: &Script, trace: &CommitTrace, path: &str, emit: &mut dyn FnMut(&str)) -> Value {
+/// Recovers `st` with the real library (must show `pre` or `post`), runs `follow` on it with its
+/// I/O logged and returns the trace of that commit.
+fn commit_on_image(sc: &Script, path: &str, st: &FileState, pre: &BucketM, post: &BucketM, follow: &Action) -> Result<Option<CommitTrace>, String> {
+    write_image(path, st);
+    let cfg = sc.cfg.clone();
+    let state1 = match guarded(|| -> Result<BucketM, String> {
+        let db = cfg.open(path).map_err(|e| format!("{:?}", e))?;
+        let tx = db.tx(false).map_err(|e| format!("{:?}", e))?;
+        real::dump_tx(&tx)
+    }) {
+        Ok(Ok(m)) => m,
+        _ => return Ok(None), // reported by the enumeration one level up
+    };
+    let model1 = if state1.same_contents(pre) {
+        pre.clone()
+    } else if state1.same_contents(post) {
+        post.clone()
+    } else {
+        return Ok(None);
+    };
+    write_image(path, st);
+    let mut r = match Runner::adopt(path, sc.cfg.clone(), model1.clone()) {
+        Ok(r) => r,
+        Err(_) => return Ok(None),
+    };
+    let pre_full = std::fs::read(path).unwrap_or_default();
+    let pre_len = pre_full.len() as u64;
+    let hw = pre_full.iter().rposition(|b| *b != 0).map(|p| p + 1).unwrap_or(0);
+    let (v, events) = iosim::logged(|| r.step(follow, &Oracles::NONE));
+    if !v.is_empty() || r.poisoned {
+        return Err(format!("{:?}", v.iter().map(|x| x.class.clone()).collect::<Vec<_>>()));
+    }
+    let post2 = r.model.clone();
+    drop(r);
+    let mut epochs: Vec<Vec<FOp>> = vec![vec![]];
+    for ev in events {
+        match ev {
+            IoEvent::Write { off, data } => epochs.last_mut().unwrap().push(FOp::Write { off, data }),
+            IoEvent::Fallocate { off, len } => epochs.last_mut().unwrap().push(FOp::Extend { len: off + len }),
+            IoEvent::Ftruncate { len } => epochs.last_mut().unwrap().push(FOp::Extend { len }),
+            IoEvent::Fsync => epochs.push(vec![]),
+            _ => {}
+        }
+    }
+    if epochs.last().map(|e| e.is_empty()).unwrap_or(false) {
+        epochs.pop();
+    }
+    if epochs.is_empty() {
+        return Ok(None);
+    }
+    Ok(Some(CommitTrace { pre_image: pre_full[..hw].to_vec(), pre_len, epochs, pre: model1, post: post2, pagesize: sc.cfg.pagesize }))
+}
+
+fn header_tear_only(sp: &ImageSpec) -> bool {
+    sp.class == "torn-header-words" && sp.present.iter().enumerate().all(|(i, p)| *p || sp.torn.as_ref().map(|t| t.0 == i).unwrap_or(false))
+}
+
+/// Three power losses in a row: (1) a header write torn from the front or from the back (the slot
+/// is invalid afterwards, so the next commit wipes it before writing); (2) after recovery and one
+/// more commit, the header written over the wiped slot is torn with exactly one of its words
+/// missing, or contiguously; (3) after another recovery and commit, every header tear / subset.
+fn level3(sc: &Script, trace: &CommitTrace, path: &str, part: usize, parts: usize, emit: &mut dyn FnMut(&str)) -> Value {
+    let (specs, _) = trace.enumerate();
+    let contiguous = |units: &Vec<bool>| -> bool {
+        let idx: Vec<usize> = units.iter().enumerate().filter(|(_, u)| **u).map(|(i, _)| i).collect();
+        !idx.is_empty() && idx.len() == idx[idx.len() - 1] - idx[0] + 1
+    };
+    // (1): two representatives, the front half and the back half of the differing words
+    let mut firsts: Vec<&ImageSpec> = vec![];
+    for want_front in [true, false] {
+        let mut best: Option<&ImageSpec> = None;
+        for sp in specs.iter().filter(|sp| header_tear_only(sp)) {
+            if let Some((_, _, units)) = &sp.torn {
+                let idx: Vec<usize> = units.iter().enumerate().filter(|(_, u)| **u).map(|(i, _)| i).collect();
+                let all: Vec<usize> = specs.iter().filter(|x| header_tear_only(x)).filter_map(|x| x.torn.as_ref()).flat_map(|t| t.2.iter().enumerate().filter(|(_, u)| **u).map(|(i, _)| i).collect::<Vec<_>>()).collect();
+                let (lo, hi) = (all.iter().min().copied().unwrap_or(0), all.iter().max().copied().unwrap_or(0));
+                if !contiguous(units) || idx.len() < 2 {
+                    continue;
+                }
+                let front = idx[0] == lo && idx[idx.len() - 1] < hi;
+                let back = idx[idx.len() - 1] == hi && idx[0] > lo;
+                if (want_front && front || !want_front && back) && best.map(|b| b.torn.as_ref().unwrap().2.iter().filter(|u| **u).count() < idx.len() && idx.len() <= 6).unwrap_or(true) {
+                    best = Some(sp);
+                }
+            }
+        }
+        if let Some(b) = best {
+            firsts.push(b);
+        }
+    }
+    let follow_a = Action::Tx { ops: vec![OpSpec::bucket("goc", &[], "l2"), OpSpec::put(&["l2"], "k", "w*300"), OpSpec::put(&["l2"], "k2", "v*20")], commit: true };
+    let follow_b = Action::Tx { ops: vec![OpSpec::bucket("goc", &[], "l3"), OpSpec::put(&["l3"], "m", "y*310"), OpSpec::put(&["l3"], "m2", "v*25")], commit: true };
+    let mut viols = vec![];
+    let mut generated = 0u64;
+    let mut probed = 0u64;
+    let mut seconds = 0u64;
+    let mut seen: HashSet<u128> = HashSet::new();
+    for sp1 in firsts.iter() {
+        let st1 = trace.image(sp1);
+        let t2 = match commit_on_image(sc, path, &st1, &trace.pre, &trace.post, &follow_a) {
+            Ok(Some(t)) => t,
+            _ => continue, // level 2 reports it
+        };
+        let (specs2, _) = t2.enumerate();
+        for sp2 in specs2.iter().filter(|sp| header_tear_only(sp)) {
+            let units = &sp2.torn.as_ref().unwrap().2;
+            let present = units.iter().filter(|u| **u).count();
+            let total = specs2.iter().filter(|x| header_tear_only(x)).filter_map(|x| x.torn.as_ref()).map(|t| t.2.iter().filter(|u| **u).count()).max().unwrap_or(0) + 1;
+            if !(present + 1 == total || contiguous(units)) {
+                continue;
+            }
+            seconds += 1;
+            if seconds as usize % parts != part {
+                continue;
+            }
+            let st2 = t2.image(sp2);
+            let t3 = match commit_on_image(sc, path, &st2, &t2.pre, &t2.post, &follow_b) {
+                Ok(Some(t)) => t,
+                Ok(None) => continue,
+                Err(e) => {
+                    if viols.len() < 50 {
+                        viols.push(json!([0, "third_level:commit_after_recovery", format!("after two torn headers and two recoveries the next commit failed: {}", e), json!({"first": sp1.to_json(), "second": sp2.to_json()})]));
+                    }
+                    continue;
+                }
+            };
+            let (specs3, _) = t3.enumerate();
+            for (k, sp3) in specs3.iter().enumerate() {
+                if !(sp3.class == "torn-header-words" || sp3.class == "complete" || sp3.class == "subset") {
+                    continue;
+                }
+                generated += 1;
+                let st3 = t3.image(sp3);
+                let mut hb = st3.bytes.clone();
+                hb.extend_from_slice(&st3.len.to_le_bytes());
+                let must_be_post = sp3.class == "complete";
+                if !seen.insert(hash128(&hb) ^ must_be_post as u128) {
+                    continue;
+                }
+                if probed % 64 == 0 {
+                    emit(&format!("l3 {}", k));
+                }
+                probed += 1;
+                if let Some((c, d)) = judge(&sc.cfg, path, &st3, &t3.pre, &t3.post, must_be_post) {
+                    if viols.len() < 50 {
+                        viols.push(json!([k, format!("third_crash:{}", c), format!("first crash: header write torn ({}); recovered; one more commit, its header torn ({}); recovered; one more commit; third crash image class {}: {}", sp1.to_json()["torn"], sp2.to_json()["torn"], sp3.class, d), json!({"first": sp1.to_json(), "second": sp2.to_json(), "third": sp3.to_json()})]));
+                    }
+                }
+            }
+        }
+    }
+    let mut classes = serde_json::Map::new();
+    classes.insert("third-level".into(), json!(generated));
+    json!({"generated": generated, "probed": probed, "capped": false, "v": viols, "ops_per_epoch": trace.epochs.iter().map(|e| e.len()).collect::<Vec<_>>(), "saw_pre": 0, "saw_post": 0, "classes": classes, "level3_second_images": seconds})
+}
+
+fn level2(sc: &Script, trace: &CommitTrace, path: &str, part: usize, parts: usize, emit: &mut dyn FnMut(&str)) -> Value {
     let (specs, _) = trace.enumerate();
     let mut firsts: Vec<&ImageSpec> = vec![];
     for sp in &specs {
@@ -501,6 +684,9 @@ fn level2(sc: &Script, trace: &CommitTrace, path: &str, emit: &mut dyn FnMut(&st
     let mut probed = 0u64;
     let mut seen: HashSet<u128> = HashSet::new();
     for (fi, sp1) in firsts.iter().enumerate() {
+        if fi % parts != part {
+            continue;
+        }
         let st1 = trace.image(sp1);
         write_image(path, &st1);
         // recover and find out which state it is
@@ -590,6 +776,7 @@ pub fn worker(idx: usize) {
     crate::pool::serve(|init, job, emit| {
         let iv: Value = serde_json::from_str(init).unwrap();
         let tier = if iv["tier"].as_str() == Some("thorough") { Tier::Thorough } else { Tier::Quick };
+        QUICK_TIER.store(tier == Tier::Quick, std::sync::atomic::Ordering::Relaxed);
         let scs = scripts(tier);
         let j: Value = serde_json::from_str(job).unwrap();
         let si = j["script"].as_u64().unwrap() as usize;
@@ -610,7 +797,10 @@ pub fn worker(idx: usize) {
             Err(_) => return json!({"err": "trace thread panicked"}).to_string(),
         };
         if j["level2"].as_bool().unwrap_or(false) {
-            return level2(sc, &trace, &path, emit).to_string();
+            return level2(sc, &trace, &path, part, parts, emit).to_string();
+        }
+        if j["level3"].as_bool().unwrap_or(false) {
+            return level3(sc, &trace, &path, part, parts, emit).to_string();
         }
         let (specs, capped) = trace.enumerate();
         let last_epoch = trace.epochs.len() - 1;
@@ -662,7 +852,11 @@ pub fn run(check: &mut Check) {
     let parts = 8usize;
     let mut jobs = vec![];
     let mut meta = vec![];
+    let only = std::env::var("VCHECK_ONLY_SCRIPT").ok();
     for (si, sc) in scs.iter().enumerate() {
+        if only.as_ref().map(|o| !sc.name.contains(o.as_str())).unwrap_or(false) {
+            continue;
+        }
         for (step, a) in sc.actions.iter().enumerate() {
             if !matches!(a, Action::Tx { commit: true, .. }) {
                 continue;
@@ -671,9 +865,21 @@ pub fn run(check: &mut Check) {
                 jobs.push(json!({"script": si, "step": step, "part": part, "parts": parts}).to_string());
                 meta.push((si, step, part));
             }
-            if !(sc.name.starts_with("kv2-") || sc.name.starts_with("p5000") || sc.name.starts_with("p4096")) || tier == Tier::Thorough {
-                jobs.push(json!({"script": si, "step": step, "part": 0, "parts": 1, "level2": true}).to_string());
-                meta.push((si, step, 999));
+            if !(sc.name.starts_with("kv2-") || sc.name.starts_with("p5000-g") || sc.name.starts_with("p4096")) || tier == Tier::Thorough {
+                for part in 0..4 {
+                    jobs.push(json!({"script": si, "step": step, "part": part, "parts": 4, "level2": true}).to_string());
+                    meta.push((si, step, 980 + part));
+                }
+            }
+            // three crashes in a row: for the update chain (quick) / every non-pair script (thorough)
+            if std::env::var("VCHECK_NO_L3").is_ok() {
+                continue;
+            }
+            if (tier == Tier::Quick && sc.name == "update-chain-page-reuse" && step <= 3) || (tier == Tier::Thorough && !sc.name.starts_with("kv2-")) {
+                for part in 0..6 {
+                    jobs.push(json!({"script": si, "step": step, "part": part, "parts": 6, "level3": true}).to_string());
+                    meta.push((si, step, 990 + part));
+                }
             }
         }
     }
@@ -765,6 +971,7 @@ pub fn replay(v: &Value) -> i32 {
     iosim::set_track_prefix(&scratch);
     let path = format!("{}/replay.db", scratch);
     let tier = if v["tier"].as_str() == Some("thorough") { Tier::Thorough } else { Tier::Quick };
+    QUICK_TIER.store(tier == Tier::Quick, std::sync::atomic::Ordering::Relaxed);
     let si = v["script_index"].as_u64().unwrap_or(0) as usize;
     let step = v["step"].as_u64().unwrap_or(0) as usize;
     let path2 = path.clone();
@@ -784,9 +991,38 @@ pub fn replay(v: &Value) -> i32 {
                     }
                 }
             }
-            let spec = ImageSpec::from_json(&v["image"]);
+            // chained cases: {"first", "second"[, "third"]}
+            let (t, image_json) = if v["image"].get("first").is_some() {
+                let follow_a = Action::Tx { ops: vec![OpSpec::bucket("goc", &[], "l2"), OpSpec::put(&["l2"], "k", "w*300"), OpSpec::put(&["l2"], "k2", "v*20")], commit: true };
+                let follow_b = Action::Tx { ops: vec![OpSpec::bucket("goc", &[], "l3"), OpSpec::put(&["l3"], "m", "y*310"), OpSpec::put(&["l3"], "m2", "v*25")], commit: true };
+                let st1 = t.image(&ImageSpec::from_json(&v["image"]["first"]));
+                let t2 = match commit_on_image(&scs[si], &path, &st1, &t.pre, &t.post, &follow_a) {
+                    Ok(Some(t2)) => t2,
+                    other => {
+                        println!("the first recovery / follow-up commit did not work: {:?}", other.map(|x| x.is_some()));
+                        report::cleanup_scratch(&scratch);
+                        return 1;
+                    }
+                };
+                if v["image"].get("third").is_some() {
+                    let st2 = t2.image(&ImageSpec::from_json(&v["image"]["second"]));
+                    match commit_on_image(&scs[si], &path, &st2, &t2.pre, &t2.post, &follow_b) {
+                        Ok(Some(t3)) => (t3, v["image"]["third"].clone()),
+                        other => {
+                            println!("the second recovery / follow-up commit did not work: {:?}", other.map(|x| x.is_some()));
+                            report::cleanup_scratch(&scratch);
+                            return 1;
+                        }
+                    }
+                } else {
+                    (t2, v["image"]["second"].clone())
+                }
+            } else {
+                (t, v["image"].clone())
+            };
+            let spec = ImageSpec::from_json(&image_json);
             let st = t.image(&spec);
-            let must_be_post = v["image"]["class"].as_str() == Some("complete");
+            let must_be_post = image_json["class"].as_str() == Some("complete");
             match judge(&scs[si].cfg, &path, &st, &t.pre, &t.post, must_be_post) {
                 Some((c, d)) => {
                     println!("   !! {}: {}", c, d);
